@@ -115,7 +115,7 @@ pub fn pv<P: PT>(ctx: &Ctx, x: Option<(&P, i32)>) -> Value {
 pub fn pvs<P: PT>(ctx: &Ctx, it: impl Iterator<Item = (P, i32)>) -> Value {
     let mut out = vec![];
     for (i, (p, v)) in it.enumerate() {
-        if i > 100_000 {
+        if i > 4096 {
             out.push(json!("DIVERGED"));
             break;
         }
@@ -142,13 +142,26 @@ pub fn guarded<F: FnOnce() -> Value>(f: F) -> Outcome {
 /// The canonical tree observed through the public view API:
 /// [n, h, v, left, right], [] for "no child", v = -1 for a value-less node.
 pub fn tree_of_view<P: PT, T>(ctx: &Ctx, v: &TrieView<'_, P, T>, val: &dyn Fn(&T) -> i32, depth: u32) -> Value {
-    if depth > 300 {
+    let budget = std::cell::Cell::new(8192usize);
+    tree_walk(ctx, v, val, depth, &budget)
+}
+
+fn tree_walk<P: PT, T>(
+    ctx: &Ctx,
+    v: &TrieView<'_, P, T>,
+    val: &dyn Fn(&T) -> i32,
+    depth: u32,
+    budget: &std::cell::Cell<usize>,
+) -> Value {
+    // a well-formed trie is at most width + 1 nodes deep (C15) and the walk visits each node once
+    if depth > ctx.tw + 2 || budget.get() == 0 {
         return json!(["DEPTH"]);
     }
+    budget.set(budget.get() - 1);
     let p = ctx.enc(v.prefix());
     let value = v.value().map(val).unwrap_or(-1);
-    let l = v.left().map(|x| tree_of_view(ctx, &x, val, depth + 1)).unwrap_or(json!([]));
-    let r = v.right().map(|x| tree_of_view(ctx, &x, val, depth + 1)).unwrap_or(json!([]));
+    let l = v.left().map(|x| tree_walk(ctx, &x, val, depth + 1, budget)).unwrap_or(json!([]));
+    let r = v.right().map(|x| tree_walk(ctx, &x, val, depth + 1, budget)).unwrap_or(json!([]));
     json!([p["n"], p["h"], value, l, r])
 }
 
@@ -229,9 +242,13 @@ pub trait Coll<P: PT>: Clone + Default {
     fn view_desc(&mut self, ctx: &Ctx, p: &P) -> Value;
     /// view_at(p0) then find / find_exact / find_lpm (q), read-only and mutable
     fn find_from(&mut self, ctx: &Ctx, p0: &P, q: &P, kind: &str) -> Value;
+    /// an observation-relative line (see trace::obs_event_over) over the given table universe
+    fn obs_line(&self, _ctx: &Ctx, _universe: &[Vec<u8>]) -> Option<String> {
+        None
+    }
 }
 
-const LIM: usize = 100_000;
+const LIM: usize = 4096;
 
 impl<P: PT> Coll<P> for PrefixMap<P, i32> {
     const IS_SET: bool = false;
@@ -305,6 +322,13 @@ impl<P: PT> Coll<P> for PrefixMap<P, i32> {
     }
     fn as_map(&mut self) -> Option<&mut PrefixMap<P, i32>> {
         Some(self)
+    }
+    fn obs_line(&self, ctx: &Ctx, universe: &[Vec<u8>]) -> Option<String> {
+        let real: Vec<Vec<u8>> = universe.iter().map(|n| ctx.dec_n(n)).collect();
+        let queries: Vec<Value> = universe.iter().map(|n| json!({"n": n, "h": "0"})).collect();
+        let mut l = crate::trace::obs_event_over(ctx, self, &real, &queries);
+        l["nolen"] = json!(true);
+        Some(serde_json::to_string(&l).unwrap())
     }
     fn view_desc(&mut self, ctx: &Ctx, p: &P) -> Value {
         let val = |v: &i32| *v;
@@ -576,9 +600,29 @@ pub fn write_through<'a, P: PT + 'a>(ctx: &Ctx, it: impl Iterator<Item = (&'a P,
     Value::Array(out)
 }
 
+/// Watchdog state: the event being executed and when it started (C20: every call terminates).
+pub static CURRENT: std::sync::Mutex<Option<(std::time::Instant, String)>> = std::sync::Mutex::new(None);
+pub fn watch_begin(ev: &Value) {
+    if let Ok(mut g) = CURRENT.lock() {
+        *g = Some((std::time::Instant::now(), serde_json::to_string(ev).unwrap_or_default()));
+    }
+}
+pub fn watch_end() {
+    if let Ok(mut g) = CURRENT.lock() {
+        *g = None;
+    }
+}
+
 /// Execute one specification event on a collection.  `None` = the event kind does not exist
 /// for this kind of collection.
 pub fn apply<P: PT, C: Coll<P>>(c: &mut C, ev: &Value, ctx: &Ctx) -> Option<Outcome> {
+    // heartbeat for the watchdog; everything the harness does until the next heartbeat (the call
+    // itself and the observation of the result) must finish within the limit
+    watch_begin(ev);
+    apply_inner::<P, C>(c, ev, ctx)
+}
+
+fn apply_inner<P: PT, C: Coll<P>>(c: &mut C, ev: &Value, ctx: &Ctx) -> Option<Outcome> {
     let a = ev["a"].as_str().expect("event name");
     let p = || ctx.dec::<P>(&ev["p"]);
     let out = match a {
